@@ -42,6 +42,12 @@ def decode_rule(F, rep):
                 else:
                     good += body.get("k") == "Path" and body.get("name") == sname
             ok = good == 2
+        if not ok and arg.get("k") == "MethodCall" and arg["method"] == "map_or" and len(arg.get("args", [])) == 2:
+            # s.iter().position(..).map_or(s, |i| &s[0..i])
+            d, cl = strip(arg["args"][0]), strip(arg["args"][1])
+            body = strip(cl.get("body") or {}) if cl.get("k") == "Closure" else {}
+            ok = (d.get("k") == "Path" and d.get("name") == sname and body.get("k") == "Index" and tir.place(body["base"]) == sname
+                  and safety.slice_to_position(F, root, body) is not None)
         rep.ob("decode.truncate", ok, TRY_FROM, "slice", "decoded bytes must be s[0..k] with k = first zero byte of s (or s.len()); got %s" % tir.pretty(arg)[:100], tir.sp(arg))
         # the searched predicate is `== 0`
         pred_ok = False
@@ -57,6 +63,36 @@ def decode_rule(F, rep):
         fm = result_form(root, c)
         ok = fm is not None and fm["some_kind"] == "Ok" and fm["none_kind"] == "Err"
         rep.ob("decode.err", ok, TRY_FROM, "result", "a failed decode must map to Err and a successful one to Ok")
+
+
+def propagate_rule(F, rep):
+    """`an invalid byte sequence makes reading fail with an error`: between the decoder and the public readers no construct
+    discards the Err of a Result whose callee cone reaches MeleeString::try_from"""
+    import errdrop
+    inv = errdrop.Inventory(F)
+    sites = inv.all_sites()
+    hit = 0
+    for s in sites:
+        cone = inv.cone(s["operand"])
+        bad = TRY_FROM in cone
+        hit += bad
+        rep.ob("decode.propagated", not bad, s["fn"], errdrop.site_key(s).split("|", 1)[1],
+               "%s discards the error of a value computed through MeleeString::try_from: an invalid Shift-JIS name would be accepted silently" % s["what"], s["sp"])
+    # callers up to the readers: every fn on a call path from a reader entry to try_from returns a Result (its error can travel)
+    import reach
+    G = reach.Graph(F)
+    R = G.reachable(["io::slippi::de::read", "io::slippi::de::parse_start", "io::peppi::de::read"])
+    chain = [o for o in R if TRY_FROM in G.reachable([o]) and o != TRY_FROM]
+    for o in chain:
+        f = F.fns.get(o) or {}
+        ret = f.get("ret") or f.get("output") or ""
+        if ret:
+            rep.ob("decode.propagated", "Result<" in ret, o, "return-type", "%s lies between the readers and the Shift-JIS decoder but returns %s: a decode error cannot travel through it" % (o, ret))
+    rep.counts["error_drop_sites_inspected"] = len(sites)
+    rep.floor("functions between the readers and MeleeString::try_from", len(chain), 3)
+    # positive control: a synthetic `.ok()` on a Result is recognised as a drop site
+    probe = {"k": "MethodCall", "method": "ok", "path": "std::result::Result::<T, E>::ok", "recv": {"k": "Path", "res": "local", "name": "x", "ty": "std::result::Result<u8, io::Error>"}, "args": [], "ty": "std::option::Option<u8>"}
+    rep.control("errdrop recognises `.ok()` on a Result", len(errdrop.Inventory(F, G).sites({"path": "probe", "tir": {"value": probe}})) == 1)
 
 
 def result_form(root, call):
@@ -186,6 +222,7 @@ def table_rule(F, rep):
 def run(F, rep, tier):
     decode_rule(F, rep)
     field_slicing(F, rep)
+    propagate_rule(F, rep)
     table_rule(F, rep)
     # positive controls on the table comparison
     rows = shiftjis.affine({"k": "Binary", "op": "Sub", "l": {"k": "Binary", "op": "Add", "l": {"k": "Path", "res": "local", "name": "c"}, "r": {"k": "Lit", "lit": "int", "v": 0x20}}, "r": {"k": "Lit", "lit": "int", "v": 0xff00}}, "c")
